@@ -102,7 +102,7 @@ func report(c *vf.Ctx, r *run) {
 
 func child(c *vf.Ctx) {
 	switch c.Child {
-	case "batch", "stress": // args: first index, count
+	case "batch", "stress", "cstress": // args: first index, count
 		first, _ := strconv.Atoi(c.ChildArgs[0])
 		n, _ := strconv.Atoi(c.ChildArgs[1])
 		for i := first; i < first+n; i++ {
@@ -110,6 +110,9 @@ func child(c *vf.Ctx) {
 			if c.Child == "stress" {
 				sp = genStress(c.Rand(fmt.Sprintf("stress/%d", i)), i)
 				c.Count("add_vs_shutdown_stress_runs", 1)
+			} else if c.Child == "cstress" {
+				sp = genCancelStress(c.Rand(fmt.Sprintf("cstress/%d", i)), i)
+				c.Count("cancel_vs_start_stress_runs", 1)
 			} else {
 				sp = genSpec(c.Rand(fmt.Sprintf("run/%d", i)), i)
 			}
@@ -309,7 +312,7 @@ func parent(c *vf.Ctx) {
 		c.Count("evaluations", 0)
 		return
 	}
-	c.SetRule("a run drives one real timed.Queue / Executor / TaskExecutor: either a scripted gated schedule (re-schedule an identifier while its callback is held at a gate; Cancel(id) while the callback is held; Cancel while a worker is parked in Poll's select holding the element, before and after Shutdown; Cancel of an element in the heap; size bound filled without a poller; bounded queue (max 1-3) kept full behind gated workers, then a pending identifier re-scheduled with an earlier/equal/later time, or a new element added after a Cancel freed a slot; far-future (year 2262 boundary +-1 s, 3000, 9999), far-past (before 1677, year 1, zero Time) and UTC / fixed-zone / no-monotonic representations mixed with due elements in one heap, added in seeded order while all workers are gated; every Shutdown flag combination with pending elements) or a seeded random history (1-4 clients x 3-8 operations: Add/ExecuteAt with offsets -5..+40 ms, element Cancel, Cancel(id), gate openings, jitter; 1-4 workers; max size 0/2/5; every flag combination; Shutdown after or concurrent with the clients), plus timer-free stress histories for one window (2-4 clients adding due elements back to back while client 0 calls Shutdown). evaluations = scheduled elements whose whole life was checked at structural quiescence; distinct_nontrivial = distinct (scenario, kind, workers, max size, flags, clients, shutdown mode, observed windows) of runs in which at least one element was delivered or prevented")
+	c.SetRule("a run drives one real timed.Queue / Executor / TaskExecutor: either a scripted gated schedule (re-schedule an identifier while its callback is held at a gate; Cancel(id) while the callback is held; Cancel while a worker is parked in Poll's select holding the element, before and after Shutdown; Cancel of an element in the heap; size bound filled without a poller; bounded queue (max 1-3) kept full behind gated workers, then a pending identifier re-scheduled with an earlier/equal/later time, or a new element added after a Cancel freed a slot; far-future (year 2262 boundary +-1 s, 3000, 9999), far-past (before 1677, year 1, zero Time) and UTC / fixed-zone / no-monotonic representations mixed with due elements in one heap, added in seeded order while all workers are gated; every Shutdown flag combination with pending elements) or a seeded random history (1-4 clients x 3-8 operations: Add/ExecuteAt with offsets -5..+40 ms, element Cancel, Cancel(id), gate openings, jitter; 1-4 workers; max size 0/2/5; every flag combination; Shutdown after or concurrent with the clients), plus timer-free stress histories for one window (2-4 clients adding due elements back to back while client 0 calls Shutdown) and for TaskExecutor.Cancel(id) racing with the start of the task under heap-lock contention. evaluations = scheduled elements whose whole life was checked at structural quiescence; distinct_nontrivial = distinct (scenario, kind, workers, max size, flags, clients, shutdown mode, observed windows) of runs in which at least one element was delivered or prevented")
 	scripts := len(scriptList())
 	nPlain := c.Pick(2400, 32000)
 	nRace := c.Pick(1200, 16000)
@@ -333,12 +336,16 @@ func parent(c *vf.Ctx) {
 	for first := 0; first < nStress; first += 1000 {
 		jobs = append(jobs, job{"stress", []string{strconv.Itoa(first), "1000"}, first%3000 == 2000, 1000})
 	}
+	nCStress := c.Pick(3000, 45000)
+	for first := 0; first < nCStress; first += 1000 {
+		jobs = append(jobs, job{"cstress", []string{strconv.Itoa(first), "1000"}, first%3000 == 2000, 1000})
+	}
 	par := max(2, min(8, runtime.NumCPU()/2))
 	vf.Parallel(len(jobs), par, func(i int) {
 		j := jobs[i]
 		// watchdog, > 10x the normal duration: a scripted or random run takes <= ~0.1 s (bounded by its 40-60 ms timers), a stress run ~5 ms
 		perRun := time.Second
-		if j.name == "stress" {
+		if j.name == "stress" || j.name == "cstress" {
 			perRun = 100 * time.Millisecond
 		}
 		res := c.RunChild(vf.ChildOpts{Name: j.name, Args: j.args, Race: j.race, Timeout: time.Duration(j.runs)*perRun + time.Minute})
@@ -349,6 +356,7 @@ func parent(c *vf.Ctx) {
 	c.Require("evaluations", c.Pick(30000, 400000))
 	c.Require("scripted_runs", 2*scripts)
 	c.Require("add_vs_shutdown_stress_runs", c.Pick(4000, 60000))
+	c.Require("cancel_vs_start_stress_runs", c.Pick(3000, 45000))
 	c.Require("runs_race_build", c.Pick(1200, 16000))
 	c.Require("pattern:gated:resched-during-callback", 12)
 	c.Require("pattern:gated:cancel-during-callback", 6)
